@@ -6,8 +6,14 @@
    fail after any delay, hang forever), any scheduler choice [wins] of who starts a retry flight.
    [run fuel ... = Some s'] excludes only running out of fuel; C16_fuel_suffices proves that
    fuel_for callers = 4n+4 is always enough.
-   Assumptions: the service honours cancellation; instants are distinct; LookupSecret's
-   unknown-name check and the start of the flight are one step. *)
+   The store-side effect of a successful flight is Store.lookup_finish, the code after the F8 repair
+   (104da0c): install unless the name has a value by then.  C16_installed_like_any is about the
+   installing flight, C16_finish_on_known_changes_nothing / C16_flight_on_known_keeps about a flight
+   that was overtaken; both are statements about the locked step in ANY store state.
+   Assumptions: the service honours cancellation; instants are distinct; in the TIMED model
+   LookupSecret's unknown-name check and the DoChan call are one step (so inside a timed run the
+   finishing flight is always the installing one, C16_flight_only_while_unknown; the window itself is
+   opened in the model and the harness of C15). *)
 From Coq Require Import List Bool NArith ZArith Arith.
 Import ListNotations.
 From Setec Require Import Base.SMap Client.Store Client.StoreInv Client.Lookup Client.LookupProofs.
@@ -41,13 +47,27 @@ Proof. exact (@policy_secret V). Qed.
 (* ---- installed like any other: after the locked part of a successful lookup the name is known, has
    a handle, Secret returns it, every later poll requests it (it can never be flagged expired), and
    the cache is handed a document containing it at once *)
-Theorem C16_installed_like_any : forall (s : store V) n v b now, Inv s ->
-  let '(s', fx) := lookup_install s n v b now in
+Theorem C16_installed_like_any : forall (s : store V) n v b now, Inv s -> known s n = false ->
+  let '(s', fx) := lookup_finish s n v b now in
   Inv s' /\ known s' n = true /\ has_handle s' n = true /\ snd (secret s' n) = Some true /\
   entry s' n = Some (CE v b now false) /\
   (forall now_ns, In (n, v) (requests (snapshot s' now_ns))) /\
   (exists d, fx = [Flush d] /\ In (n, Some (v, b, now)) d).
-Proof. exact (@installed_like_any V). Qed.
+Proof. exact (@finish_installs_like_any V). Qed.
+
+(* ---- a flight finishing on a name that has a value by now (another lookup of the name completed
+   after this flight's caller found it missing - F8): the caller gets a WORKING handle (Secret returns
+   it; calling it yields the bytes the store holds), and nothing else changes: same map (value,
+   version, stamp of every name), same watchers and flags, same settings, nothing written to the
+   cache; handles stay; the poller keeps asking for the name with the version the store holds *)
+Theorem C16_finish_on_known_changes_nothing : forall (s : store V) n v b now e, Inv s -> entry s n = Some e ->
+  let '(s', fx) := lookup_finish s n v b now in
+  Inv s' /\ m s' = m s /\ ws s' = ws s /\ allow s' = allow s /\ age s' = age s /\ fx = [] /\
+  (forall k, In k (hs s) -> In k (hs s')) /\
+  known s' n = true /\ has_handle s' n = true /\ snd (secret s' n) = Some true /\
+  entry s' n = Some e /\ (forall t, snd (read s' n t) = Some (val e)) /\
+  (forall now_ns, In (n, ver e) (requests (snapshot s' now_ns))).
+Proof. exact (@finish_known_changes_nothing V). Qed.
 
 (* ---- single flight: in the service's request log for the name a request starts only after the
    previous one ended, and none is left open when everybody has returned *)
@@ -63,6 +83,30 @@ Theorem C16_all_joined_get_handle : forall (nm : name) (s : lstate V) t f d v b,
   known (lst s') nm = true /\ snd (secret (lst s') nm) = Some true /\
   log s' = log s ++ [MEnd (fowner f) t OAnswered].
 Proof. exact (@success_all_joined V). Qed.
+
+(* the flight that finds the name still unknown installs exactly the service's answer *)
+Theorem C16_flight_installs_answer : forall (nm : name) (s : lstate V) t f d v b,
+  fl s = Some f -> fscript f = SAns d v b -> Inv (lst s) -> known (lst s) nm = false ->
+  entry (lst (step nm s t EvFlight)) nm = Some (CE v b (Z.of_N (t / 1000)) false).
+Proof. exact (@success_installs V). Qed.
+
+(* a flight whose locked part finds the name valued still hands every joined caller a working
+   handle, and the store keeps its map, its watchers and their flags *)
+Theorem C16_flight_on_known_keeps : forall (nm : name) (s : lstate V) t f d v b e,
+  fl s = Some f -> fscript f = SAns d v b -> Inv (lst s) -> entry (lst s) nm = Some e ->
+  let s' := step nm s t EvFlight in
+  (forall i, In i (waiting s) -> In (i, RHandle, t) (done s')) /\
+  m (lst s') = m (lst s) /\ ws (lst s') = ws (lst s) /\ entry (lst s') nm = Some e /\
+  snd (secret (lst s') nm) = Some true /\ (forall t', snd (read (lst s') nm t') = Some (val e)).
+Proof. exact (@success_on_known_keeps V). Qed.
+
+(* inside a timed run a flight exists only while the name is unknown *)
+Theorem C16_flight_only_while_unknown : forall (nm : name) callers scr wn (st : store V) fuel s',
+  run nm fuel (init callers scr wn st) = Some s' -> fl s' <> None -> known (lst s') nm = false.
+Proof.
+  intros nm callers scr wn st0 fuel s' R. apply (@run_KInv V nm fuel (init callers scr wn st0) s'); [|exact R].
+  intros F. contradiction F. reflexivity.
+Qed.
 
 (* ... and later callers get the handle at once, without a request *)
 Theorem C16_known_no_request : forall (nm : name) (s : lstate V) t i, known (lst s) nm = true ->
@@ -116,6 +160,10 @@ Print Assumptions C16_known_handle.
 Print Assumptions C16_request_iff.
 Print Assumptions C16_policy_is_store_secret.
 Print Assumptions C16_installed_like_any.
+Print Assumptions C16_finish_on_known_changes_nothing.
+Print Assumptions C16_flight_installs_answer.
+Print Assumptions C16_flight_on_known_keeps.
+Print Assumptions C16_flight_only_while_unknown.
 Print Assumptions C16_single_flight.
 Print Assumptions C16_all_joined_get_handle.
 Print Assumptions C16_known_no_request.
@@ -176,3 +224,19 @@ Example ex_f4_fixed :
   option_map (fun s => existsb (fun '(i, _, t) => Nat.eqb i 0 && (t <=? 1000 + limit)) (done s))
     (run ex_x (fuel_for ex_callers) (init ex_callers [] [] ex_st)) = Some true.
 Proof. vm_compute. reflexivity. Qed.
+
+(* a flight that was overtaken (F8): the store already holds version 1 / bytes 11 of "x" with a watcher
+   whose slot is empty when the flight's answer (version 2, bytes 22) arrives: the joined callers get
+   the handle, the store still serves 11, the watcher's slot stays empty, nothing is flushed;
+   the unrepaired locked part (lookup_install) would have replaced the value silently *)
+Definition ex_st_known : store N := ST (upd ex_x (Some (CE 1 11 0%Z false)) []) [ex_x] [W ex_x false] true 0%Z.
+Example ex_overtaken_flight :
+  let s := LS [C 1000 None None; C 1200 None None] [] [0%nat; 1%nat] (Some (F 0 1000 (SAns 500 2 22))) [] [] [] [MStart 0 1000] ex_st_known in
+  let s' := step ex_x s 1500 EvFlight in
+  done s' = [(0%nat, RHandle, 1500); (1%nat, RHandle, 1500)]
+  /\ entry (lst s') ex_x = Some (CE 1 11 0%Z false) /\ ws (lst s') = [W ex_x false]
+  /\ snd (read (lst s') ex_x 7%Z) = Some 11
+  /\ snd (lookup_finish ex_st_known ex_x 2 22 1%Z) = []
+  /\ entry (fst (lookup_install ex_st_known ex_x 2 22 1%Z)) ex_x = Some (CE 2 22 1%Z false)
+  /\ ws (fst (lookup_install ex_st_known ex_x 2 22 1%Z)) = [W ex_x false].
+Proof. vm_compute. repeat split. Qed.
